@@ -19,7 +19,8 @@ from .. import common as C
 from .. import effects as EF
 from .. import engined as E
 
-GLOBAL_KINDS = {"global-statement", "nonlocal-statement", "store-to-module-state", "mutator-call-on-module-state", "global-state-mutator", "errstate-outside-with"}
+GLOBAL_KINDS = {"global-statement", "nonlocal-statement", "store-to-module-state", "mutator-call-on-module-state", "global-state-mutator", "errstate-outside-with",
+                "augmented-assignment-on-module-state"}
 REGISTRATION = {"register_awkward", "register_numba"}
 TABLE_BUILDERS = {"make_conversion", "make_function"}
 
@@ -130,6 +131,65 @@ def thread_probe(F, rounds=40, nthreads=4):
             F.check("C20", f"threads/concurrent-equals-sequential/{oname}|{bname}", not bad, dict(first=bad[:2], rounds=rounds, threads=nthreads))
 
 
+def state_independence_probe(F):
+    """BOUNDED: results do not depend on which operations ran before - a fixed panel of calls gives bit-identical results before and after a sweep of
+    every unary operation over all coordinate systems (hidden module / class / cache state that survives a call shows here)"""
+    import random
+    import numpy as np
+    import vector
+    from .. import arrays as AR
+    try:
+        import awkward as ak
+    except Exception:
+        ak = None
+    rng = random.Random(11)
+    panel_ops = [("rotateZ", lambda v: v.rotateZ(0.3)), ("scale2D", lambda v: v.scale2D(2.0)), ("neg2D", lambda v: v.neg2D), ("rotateX", lambda v: v.rotateX(0.2)),
+                 ("scale", lambda v: v.scale(-1.5)), ("unit", lambda v: v.unit()), ("boostZ", lambda v: v.boostZ(beta=0.25)), ("to_xyzt", lambda v: v.to_xyzt()), ("add", lambda v: v.add(v))]
+    operands = []
+    for s_ in (("xy", "z", "t"), ("rhophi", "eta", "tau"), ("rhophi", "theta", "t")):
+        for layout in ("np(3)", "ak-jagged", "ak-record", "object"):
+            if layout.startswith("ak") and ak is None:
+                continue
+            for mom in (False, True):
+                operands.append((f"[{','.join(s_)}|{'mom' if mom else 'gen'}|{layout}]", AR.build(layout, s_, mom, rng)[0]))
+
+    def digest():
+        out = {}
+        for tag, v in operands:
+            for oname, op in panel_ops:
+                try:
+                    with np.errstate(all="ignore"):
+                        r = op(v)
+                    if ak is not None and isinstance(r, (ak.Array, ak.Record)):
+                        out[oname + tag] = (str(ak.type(r)) if isinstance(r, ak.Array) else "record", tuple(ak.fields(r)), repr(ak.to_list(r)))
+                    elif isinstance(r, np.ndarray):
+                        out[oname + tag] = (type(r).__name__, r.dtype.names, r.tobytes())
+                    else:
+                        out[oname + tag] = (type(r).__name__, repr(r))
+                except Exception as e:
+                    out[oname + tag] = ("raises", type(e).__name__)
+        return out
+    before = digest()
+    for s_ in AR.systems():
+        for mom in (False, True):
+            for layout in ("np(3)", "ak-jagged", "ak-record", "object"):
+                if layout.startswith("ak") and ak is None:
+                    continue
+                try:
+                    v = AR.build(layout, s_, mom, rng)[0]
+                except Exception:
+                    continue
+                for name, op in E.unary_ops(len(s_) + 1, mom):
+                    try:
+                        with np.errstate(all="ignore"):
+                            op(v)
+                    except Exception:
+                        pass
+    after = digest()
+    for k in before:
+        F.check("C20", f"state/result-independent-of-earlier-calls/{k}", before[k] == after[k], dict(before=str(before[k])[:160], after=str(after[k])[:160]))
+
+
 def runtime_contract(F):
     import copy
     import warnings
@@ -218,7 +278,7 @@ def main(argv):
     shared = shared_instance_state(src, sites, lambda oid, ok, d=None: F.check("C20", oid, ok, d))
     F.n += 1       # the shared-instance clause itself
     n_static = F.n
-    for n_, bad_ in C.pool_map(_runtime_worker, [0, 1, 2]):
+    for n_, bad_ in C.pool_map(_runtime_worker, [0, 1, 2, 3]):
         F.n += n_
         F.bad += bad_
     n_rt = F.n - n_static
@@ -256,8 +316,10 @@ def _runtime_worker(i):
         runtime_contract(F)
     elif i == 1:
         numpy_class_dtype_probe(F)
-    else:
+    elif i == 2:
         thread_probe(F, rounds=40 if C.tier() == "quick" else 400)
+    else:
+        state_independence_probe(F)
     return F.n, F.bad
 
 
@@ -287,6 +349,8 @@ def replay(prop, rp, path):
     numpy_class_dtype_probe(F)
     if "/threads/" in oid:
         thread_probe(F, rounds=400)
+    if "/state/" in oid:
+        state_independence_probe(F)
     hit = [b for b in F.bad if b[1] == oid]
     if hit:
         print("still failing:", hit[0])
